@@ -1,4 +1,5 @@
 import StepModel.LazyLemmas
+import StepModel.LazyLoadTop
 import StepModel.LazyScan
 import StepModel.LazyScanFile
 import StepModel.LazyScanGaps
@@ -154,6 +155,15 @@ theorem C10_scan_file_gaps (is : List RInstC) (hok : ∀ i ∈ is, i.Ok) (g : Ga
     does — `C10_scan_file` / `C10_scan_file_gaps` quantify over keywords of every length; a fixed buffer (seed C10-d2) flips this -/
 theorem C10_keyword_unbounded : kwUnbounded = true := rfl
 
+/-- the tie for the branches of `seekEnd`: the case labels of the `switch` in `seekInstanceEnd` (regenerated) are exactly the characters
+    the model dispatches on, in `seekEnd`'s order; a `case` added to or removed from the source changes the constant and this no longer
+    elaborates -/
+theorem C10_seek_cases : seekCases = ['(', '/', '\'', '=', '#', ')'] := rfl
+
+/-- the tie for when inverse attributes are resolved: only at load depth 0 (regenerated from `lazyInstMgr::loadInstance`; fix C11-4) — the
+    shape `loadTop` models (the pending list is drained after the read recursion has returned, never inside it) -/
+theorem C10_source_refs_deferred : refsDeferred = true := rfl
+
 /-- non-vacuity: `/*l #9*/ #12 /*c (*/ = /*e ;*/ ND` tab `/*k*/ ('a',#3) /*s )*/ ;` is a well-formed written instance -/
 example :
     let i : RInstC := ⟨[' '], some (['l', ' ', '#', '9'], [' ']), [], ['1', '2'], [([' '], ['c', ' ', '('])], [' '],
@@ -292,12 +302,14 @@ theorem loadAll_spec (es : List Entry) (fuel : Nat) (hf : es.length < fuel) :
       · subst h; exact e2 _ (k1 hk)
       · exact k2 id h hk
 
-/-- Any history of `loadInstance` calls (any order, with repetitions, including ids the file does not have), for any
+/-- **The read recursion alone** (`loadInstance → getRealInstance → STEPread → FindFileId → loadInstance`, model `load` / `loadAll`;
+    the depth-0 inverse-attribute step is added in `C10_load_any_order` below, which is the statement about `loadInstance` itself).
+    Any history of such reads (any order, with repetitions, including ids the file does not have), for any
     population — cyclic ones included: every call returns (no unbounded recursion, fuel = number of instances + 1
     suffices), returns non-null exactly for the ids in the file, every requested instance is in the cache, and every
     object in the cache has each of its references resolved exactly as the eager reader resolves it — independent of
     the history.  Rests on `cacheBeforeRead = true`, which is regenerated from `sectionReader::getRealInstance`. -/
-theorem C10_load_any_order (es : List Entry) (ids : List Nat) (fuel : Nat) (hf : es.length < fuel) :
+theorem C10_read_recursion_any_order (es : List Entry) (ids : List Nat) (fuel : Nat) (hf : es.length < fuel) :
     ∃ c, loadAll cacheBeforeRead es fuel [] ids = .ok (c, ids.map (known es)) ∧
       (∀ o ∈ c, known es o.id = true ∧ o.resolved = expected es o.id) ∧
       (∀ id ∈ ids, known es id = true → c.has id = true) := by
@@ -315,7 +327,7 @@ theorem C10_load_any_order (es : List Entry) (ids : List Nat) (fuel : Nat) (hf :
 
 /-- **the loaded set contains the dependency closure**: after any history, for every requested instance of the file, every
     instance of the file it reaches through references (at any depth — no bound) is loaded too -/
-theorem C10_load_contains_deps (es : List Entry) (ids : List Nat) (fuel : Nat) (hf : es.length < fuel) :
+theorem C10_read_recursion_contains_deps (es : List Entry) (ids : List Nat) (fuel : Nat) (hf : es.length < fuel) :
     ∃ c, loadAll cacheBeforeRead es fuel [] ids = .ok (c, ids.map (known es)) ∧
       ∀ id ∈ ids, known es id = true → ∀ j, Reach (Mentions es) id j → known es j = true → c.has j = true := by
   have hcb : cacheBeforeRead = true := rfl
@@ -349,11 +361,11 @@ theorem C10_load_contains_deps (es : List Entry) (ids : List Nat) (fuel : Nat) (
 
 /-- **the loaded set is exactly the requested instances and their dependency closure**: after any history an instance is in
     the cache iff it is an instance of the file that was requested or is reached from a requested instance of the file -/
-theorem C10_loaded_set_exact (es : List Entry) (ids : List Nat) (fuel : Nat) (hf : es.length < fuel) :
+theorem C10_read_recursion_set_exact (es : List Entry) (ids : List Nat) (fuel : Nat) (hf : es.length < fuel) :
     ∃ c, loadAll cacheBeforeRead es fuel [] ids = .ok (c, ids.map (known es)) ∧
       ∀ x, c.has x = true ↔ known es x = true ∧ ∃ id ∈ ids, known es id = true ∧ (x = id ∨ Reach (Mentions es) id x) := by
-  obtain ⟨c, h, hdeps⟩ := C10_load_contains_deps es ids fuel hf
-  obtain ⟨c2, h2, hobj, hreq⟩ := C10_load_any_order es ids fuel hf
+  obtain ⟨c, h, hdeps⟩ := C10_read_recursion_contains_deps es ids fuel hf
+  obtain ⟨c2, h2, hobj, hreq⟩ := C10_read_recursion_any_order es ids fuel hf
   have hcb : cacheBeforeRead = true := rfl
   rw [hcb] at h h2
   rw [h] at h2
@@ -383,6 +395,167 @@ theorem C10_loaded_set_exact (es : List Entry) (ids : List Nat) (fuel : Nat) (hf
     rcases hxid with e | e
     · rw [e]; exact hreq id hid hkid
     · exact hdeps id hid hkid x e hkx
+
+/-! ### `loadInstance` itself: the read recursion and, at load depth 0, the inverse-attribute step
+
+`loadHist` / `loadTop` (`Lazy.lean`): after the read recursion every newly loaded instance is pending; for each pending instance
+`lazyRefs` loads every candidate referrer (`cands x`: for the code `candsOf es inv x` — the instances that mention `x` and whose keyword
+is the inverted entity, or a subtype, of an inverse attribute of `x`'s entity) by further depth-0 calls, and keeps it loaded whether
+it refers to `x` through the inverted attribute or not.  The theorems hold for every candidate function whose values are instances of
+the file, and for every order in which the pending list is filled. -/
+
+theorem inv_empty (es : List Entry) (cands : Nat → List Nat) : Inv es cands [] (([] : Cache), []) := by
+  refine ⟨fun o ho => (by cases ho), fun _ => rfl, fun _ h => (by cases h), fun x hx => ?_⟩
+  simp [Cache.has] at hx
+
+theorem candsOf_known (es : List Entry) (inv : Bytes → List Bytes) (x r : Nat) (h : r ∈ candsOf es inv x) : known es r = true := by
+  unfold candsOf at h
+  cases hf : es.find? (fun e => e.id == x) with
+  | none => simp [hf] at h
+  | some ex =>
+    simp only [hf, List.mem_eraseDups, List.mem_map, List.mem_filter] at h
+    obtain ⟨e, ⟨he, _⟩, hid⟩ := h
+    unfold known refsOf
+    cases hr : es.find? (fun e => e.id == r) with
+    | none =>
+      rw [List.find?_eq_none] at hr
+      exact absurd (by simp [hid]) (hr e he)
+    | some _ => rfl
+
+/-- **Any history of `loadInstance` calls** (any order, repetitions, ids the file does not have), any population (cyclic ones
+    included), any schema — with or without INVERSE attributes: every call returns (fuel = number of instances + 1 bounds the nesting of
+    depth-0 calls), non-null exactly for the ids of the file; afterwards no instance is pending or half-read, every requested instance
+    is cached and every cached object has each reference resolved exactly as the eager reader resolves it.  Rests on the regenerated
+    `cacheBeforeRead` and `refsDeferred` (inverse attributes are resolved only at load depth 0). -/
+theorem C10_load_any_order (es : List Entry) (cands : Nat → List Nat) (ord : List Nat → List Nat)
+    (hk : ∀ x r, r ∈ cands x → known es r = true) (hord : ∀ l x, x ∈ ord l ↔ x ∈ l)
+    (ids : List Nat) (fuel : Nat) (hf : es.length < fuel) :
+    ∃ c, loadHist es cands ord fuel ([], []) ids = .ok ((c, []), ids.map (known es)) ∧
+      (∀ o ∈ c, known es o.id = true ∧ o.resolved = expected es o.id) ∧
+      (∀ id ∈ ids, known es id = true → c.has id = true) := by
+  have hi0 := inv_empty es cands
+  obtain ⟨c, h, _, i, k, _⟩ := loadHist_spec es cands ord hk hord fuel hf ids [] hi0
+  refine ⟨c, h, ?_, k⟩
+  intro o ho
+  refine ⟨(i.wf o ho).1, ?_⟩
+  rcases (i.wf o ho).2.1 with h0 | h0
+  · have : isPend c o.id = true := by
+      unfold isPend; rw [List.any_eq_true]; exact ⟨o, ho, by simp [h0]⟩
+    rw [i.np o.id] at this; cases this
+  · exact h0
+
+/-- **the loaded set, exactly**: after any history of `loadInstance` calls an instance is loaded iff it is an instance of the file that
+    was requested or is reached from a requested instance of the file along `Step` — forward reference, or candidate referrer of a
+    loaded instance — at any depth.  With INVERSE attributes in the schema this is more than the dependency closure: instances that
+    merely refer to a loaded instance through an attribute some inverse attribute inverts — and instances of such an entity that
+    mention it through any other attribute — are loaded and stay loaded (`//TODO _lim->unload` in `loadInstIFFreferent`). -/
+theorem C10_loaded_set_exact (es : List Entry) (cands : Nat → List Nat) (ord : List Nat → List Nat)
+    (hk : ∀ x r, r ∈ cands x → known es r = true) (hks : ∀ x, known es x = false → cands x = [])
+    (hord : ∀ l x, x ∈ ord l ↔ x ∈ l) (ids : List Nat) (fuel : Nat) (hf : es.length < fuel) :
+    ∃ c, loadHist es cands ord fuel ([], []) ids = .ok ((c, []), ids.map (known es)) ∧
+      ∀ x, c.has x = true ↔
+        known es x = true ∧ ∃ id ∈ ids, known es id = true ∧ (x = id ∨ Reach (Step es cands) id x) := by
+  have hi0 := inv_empty es cands
+  obtain ⟨c, h, _, i, k, n⟩ := loadHist_spec es cands ord hk hord fuel hf ids [] hi0
+  refine ⟨c, h, fun x => ⟨fun hx => ?_, fun hx => ?_⟩⟩
+  · refine ⟨has_known i.wf hx, ?_⟩
+    rcases n x hx with h0 | h0
+    · simp [Cache.has] at h0
+    · exact h0
+  · obtain ⟨hkx, id, hid, hkid, hxid⟩ := hx
+    -- one step: from a cached instance to an instance of the file
+    have step : ∀ a b, c.has a = true → Step es cands a b → known es b = true → c.has b = true := by
+      intro a b ha hs hkb
+      rcases hs with hm | hc
+      · obtain ⟨refs, hr, hb⟩ := hm
+        unfold Cache.has at ha
+        rw [List.any_eq_true] at ha
+        obtain ⟨o, ho, hoid⟩ := ha
+        have hoid' : o.id = a := by simpa using hoid
+        have hne : o.resolved ≠ none := by
+          intro h0
+          have : isPend c o.id = true := by
+            unfold isPend; rw [List.any_eq_true]; exact ⟨o, ho, by simp [h0]⟩
+          rw [i.np o.id] at this; cases this
+        exact (i.wf o ho).2.2 hne refs (by rw [hoid']; exact hr) b hb hkb
+      · exact i.cl a ha (by simp) (by simp) b hc
+    -- a step leaves an instance of the file
+    have src : ∀ a b, Step es cands a b → known es a = true := by
+      intro a b hs
+      rcases hs with ⟨refs, hr, _⟩ | hc
+      · simp [known, hr]
+      · cases hka : known es a with
+        | true => rfl
+        | false => rw [hks a hka] at hc; cases hc
+    rcases hxid with e | e
+    · rw [e]; exact k id hid hkid
+    · have : ∀ y, Reach (Step es cands) id y → known es y = true → c.has y = true := by
+        intro y hr
+        induction hr with
+        | single hs => exact fun hky => step _ _ (k id hid hkid) hs hky
+        | tail hr' hs ih => exact fun hky => step _ _ (ih (src _ _ hs)) hs hky
+      exact this x e hkx
+
+theorem candsOf_unknown (es : List Entry) (inv : Bytes → List Bytes) (x : Nat) (h : known es x = false) : candsOf es inv x = [] := by
+  unfold known refsOf at h
+  unfold candsOf
+  cases hf : es.find? (fun e => e.id == x) with
+  | none => rfl
+  | some _ => simp [hf] at h
+
+/-- the same for the candidate function of the code (`candsOf`: reverse references filtered by the keywords `inv` hands in for the
+    instance's own keyword), with no hypothesis left: `y` is loaded iff it is an instance of the file that was requested or is reached
+    from a requested instance along "is mentioned by" and "mentions, and has a keyword among the candidate keywords of" -/
+theorem C10_loaded_set_exact_code (es : List Entry) (inv : Bytes → List Bytes) (ids : List Nat) (fuel : Nat) (hf : es.length < fuel) :
+    ∃ c, loadHist es (candsOf es inv) (fun l => l) fuel ([], []) ids = .ok ((c, []), ids.map (known es)) ∧
+      ∀ x, c.has x = true ↔
+        known es x = true ∧ ∃ id ∈ ids, known es id = true ∧ (x = id ∨ Reach (Step es (candsOf es inv)) id x) :=
+  C10_loaded_set_exact es (candsOf es inv) (fun l => l) (candsOf_known es inv) (candsOf_unknown es inv) (fun _ _ => Iff.rfl) ids fuel hf
+
+/-- … in particular the loaded set **contains** the dependency closure of every requested instance -/
+theorem C10_load_contains_deps (es : List Entry) (cands : Nat → List Nat) (ord : List Nat → List Nat)
+    (hk : ∀ x r, r ∈ cands x → known es r = true) (hks : ∀ x, known es x = false → cands x = [])
+    (hord : ∀ l x, x ∈ ord l ↔ x ∈ l) (ids : List Nat) (fuel : Nat) (hf : es.length < fuel) :
+    ∃ c, loadHist es cands ord fuel ([], []) ids = .ok ((c, []), ids.map (known es)) ∧
+      ∀ id ∈ ids, known es id = true → ∀ j, Reach (Mentions es) id j → known es j = true → c.has j = true := by
+  obtain ⟨c, h, hx⟩ := C10_loaded_set_exact es cands ord hk hks hord ids fuel hf
+  exact ⟨c, h, fun id hid hkid j hr hkj =>
+    (hx j).mpr ⟨hkj, id, hid, hkid, Or.inr (Reach.mono (fun a b hab => Or.inl hab) hr)⟩⟩
+
+/-- **schemas without INVERSE attributes** (no instance has a candidate referrer): the loaded set is exactly the requested instances
+    and their dependency closure -/
+theorem C10_loaded_set_no_inverse (es : List Entry) (ord : List Nat → List Nat) (hord : ∀ l x, x ∈ ord l ↔ x ∈ l)
+    (ids : List Nat) (fuel : Nat) (hf : es.length < fuel) :
+    ∃ c, loadHist es (fun _ => []) ord fuel ([], []) ids = .ok ((c, []), ids.map (known es)) ∧
+      ∀ x, c.has x = true ↔
+        known es x = true ∧ ∃ id ∈ ids, known es id = true ∧ (x = id ∨ Reach (Mentions es) id x) := by
+  obtain ⟨c, h, hx⟩ := C10_loaded_set_exact es (fun _ => []) ord (fun _ _ h => by cases h) (fun _ _ => rfl) hord ids fuel hf
+  refine ⟨c, h, fun x => ?_⟩
+  rw [hx x]
+  have e1 : ∀ a b, Reach (Step es (fun _ => [])) a b → Reach (Mentions es) a b :=
+    fun a b hr => Reach.mono (fun p q hs => by rcases hs with hs | hs; exact hs; cases hs) hr
+  have e2 : ∀ a b, Reach (Mentions es) a b → Reach (Step es (fun _ => [])) a b :=
+    fun a b hr => Reach.mono (fun p q hs => Or.inl hs) hr
+  constructor
+  · rintro ⟨hkx, id, hid, hkid, h | h⟩
+    · exact ⟨hkx, id, hid, hkid, Or.inl h⟩
+    · exact ⟨hkx, id, hid, hkid, Or.inr (e1 _ _ h)⟩
+  · rintro ⟨hkx, id, hid, hkid, h | h⟩
+    · exact ⟨hkx, id, hid, hkid, Or.inl h⟩
+    · exact ⟨hkx, id, hid, hkid, Or.inr (e2 _ _ h)⟩
+
+/-- `_witness` for the INVERSE case (executed): `#1=ND('a',$); #2=ND('b',#1); #3=GRP('g',(#1),0); #4=ND('c',$); #5=ND('d',#2);` over a
+    schema in which `nd` has `INVERSE prevs : SET OF nd FOR nxt; in_grps : SET OF grp FOR items;`.  `loadInstance(1)` leaves #1, #2, #3 and
+    #5 loaded — #2 and #3 refer to #1, #5 to #2; none of them is in the dependency closure of #1 (which is empty) — and #4 unloaded;
+    without the inverse attributes only #1.  Replayed on the code: corpus `inverse-referrers-loaded`. -/
+theorem C10_loaded_set_inverse_witness :
+    let es : List Entry := [⟨1, "ND".toList, []⟩, ⟨2, "ND".toList, [1]⟩, ⟨3, "GRP".toList, [1]⟩, ⟨4, "ND".toList, []⟩, ⟨5, "ND".toList, [2]⟩]
+    let inv : Bytes → List Bytes := fun k => if k == "ND".toList then ["ND".toList, "GRP".toList] else []
+    (match loadHist es (candsOf es inv) (fun l => l) 6 ([], []) [1] with
+     | .ok ((c, p), bs) => some (c.map (·.id), p, bs) | _ => none) = some ([1, 2, 5, 3], [], [true]) ∧
+    (match loadHist es (fun _ => []) (fun l => l) 6 ([], []) [1] with
+     | .ok ((c, p), bs) => some (c.map (·.id), p, bs) | _ => none) = some ([1], [], [true]) := by
+  decide
 
 /-- The code as it was (instance cached only after `getRealInstance` returns): on the two-instance cycle
     `#1=N('a',#2); #2=N('b',#1);` `loadInstance(1)` never returns — for every fuel the model runs out of it
